@@ -126,8 +126,23 @@ print(json.dumps({'dir': d, 'out': out}, default=repr))
 '''
 
 
-def gen_cases(rnd, n):
+def lone_star_join_cases():
+    """a fixed battery: a select list that is exactly one star form over a JOIN whose records are matched several times, need quoting, or are
+    the (shared) null record of a LEFT JOIN — whatever a front-end does to a record it is handed must not show in the next one"""
+    T = [['x', '1', 'p'], ['x', '2', 'q'], ['n1', '3', 'r'], ['y', '4', 's'], ['n2', '5', 't'], ['x', '6', 'u']]
+    B = [['x', 'v,w'], ['y', 'p"q'], ['x', 'plain']]
     cases = []
+    for sel in ('b.*', 'a.*', '*', 'b.*, a.*'):
+        for kind, tails in (('join', [('', '')]), ('left join', [('', ''), (' where b1 is None', ' where b1 === null'), (' where b2 != "v,w"', ' where b2 != "v,w"')])):
+            for tail_py, tail_js in tails:
+                text = 'select %s %s JOINTBL on a1 == b1' % (sel, kind)
+                cases.append({'query': text + tail_py, 'table': [r[:] for r in T], 'header': HEADER, 'expect_header': True, 'join_table': [r[:] for r in B], 'join_header': ['k', 'v'],
+                              'query_js': text + tail_js})
+    return cases
+
+
+def gen_cases(rnd, n):
+    cases = lone_star_join_cases()
     for _ in range(n):
         nrows = rnd.randint(0, 5)
         T = [[rnd.choice(['x', 'y', 'z', 'x y', 'a,b', 'q"t', '10', '9', '']) for _c in range(3)] for _r in range(nrows)]
@@ -323,9 +338,70 @@ def cli_dialect_leg(res):
                                'model_says': b['model'], 'impl_says': b['got'], 'case_key': 'C13|clidialect|' + b['line']})
 
 
+def cli_encoding_leg(res):
+    """non-ASCII data under --encoding utf-8 / latin-1 through the command line, file and stdin in, file and stdout out: the BYTES written are the
+    result table of query_table encoded with the requested encoding, whatever the locale of the process says about stdout (direct oracle)"""
+    import tempfile, shutil
+    sys.path.insert(0, str(common.REPO / 'rbql-py'))
+    tables = [[['caf\u00e9', '1'], ['na\u00efve \u00dcn\u00ef', '2'], ['plain', '3']], [['\u00e9,\u00e8', 'x'], ['"\u00fc"', 'y']], [['a', 'b']]]
+    queries = ['select *', 'select a2, a1', 'select a1 + "\u00df", NR where a2 != "2"', 'select a1 order by a1 desc']
+    d = tempfile.mkdtemp(prefix='rbqlverif_c13enc_')
+    jobs = []
+    try:
+        import importlib
+        rbql = importlib.import_module('rbql')
+        csv_utils = importlib.import_module('rbql.csv_utils')
+        for ti, T in enumerate(tables):
+            for enc in ('utf-8', 'latin-1'):
+                inp = os.path.join(d, 'in_%d_%s.csv' % (ti, enc))
+                raw = ''.join(','.join(csv_utils.quote_field(x, ',') for x in r) + '\n' for r in T).encode(enc)
+                open(inp, 'wb').write(raw)
+                for qi, q in enumerate(queries):
+                    if enc == 'latin-1' and not all(ord(ch) < 128 for ch in q):
+                        continue          # documented refusal: 'To use non-ascii characters in query enable UTF-8 encoding instead of latin-1/binary'
+                    ref = []
+                    rbql.query_table(q, [r[:] for r in T], ref, [])
+                    want = ''.join(','.join(csv_utils.quote_field(str(x), ',') for x in r) + '\n' for r in ref).encode(enc)
+                    for locale_enc in ('utf-8', 'latin-1'):
+                        jobs.append((ti, enc, q, locale_enc, inp, raw, want, os.path.join(d, 'out_%d_%s_%d_%s.csv' % (ti, enc, qi, locale_enc))))
+
+        def one(job):
+            ti, enc, q, locale_enc, inp, raw, want, outp = job
+            env_extra = {'PYTHONIOENCODING': locale_enc}
+            base = ['--delim', ',', '--policy', 'quoted', '--encoding', enc, '--query', q]
+            env = common.impl_env(); env.update(env_extra)
+            got = {}
+            r = subprocess.run([common.PY, '-W', 'ignore', '-m', 'rbql'] + base + ['--input', inp, '--output', outp], env=env, stdout=subprocess.PIPE, stderr=subprocess.PIPE, timeout=120)
+            got['file->file'] = open(outp, 'rb').read() if r.returncode == 0 and os.path.exists(outp) else ('rc=%d %s' % (r.returncode, r.stderr.decode('utf-8', 'replace')[:200])).encode()
+            r = subprocess.run([common.PY, '-W', 'ignore', '-m', 'rbql'] + base + ['--input', inp], env=env, stdout=subprocess.PIPE, stderr=subprocess.PIPE, timeout=120)
+            got['file->stdout'] = r.stdout if r.returncode == 0 else ('rc=%d %s' % (r.returncode, r.stderr.decode('utf-8', 'replace')[:200])).encode()
+            r = subprocess.run([common.PY, '-W', 'ignore', '-m', 'rbql'] + base, input=raw, env=env, stdout=subprocess.PIPE, stderr=subprocess.PIPE, timeout=120)
+            got['stdin->stdout'] = r.stdout if r.returncode == 0 else ('rc=%d %s' % (r.returncode, r.stderr.decode('utf-8', 'replace')[:200])).encode()
+            return got
+        with ThreadPoolExecutor(max_workers=common.NPROC) as ex:
+            gots = list(ex.map(one, jobs))
+    finally:
+        shutil.rmtree(d, ignore_errors=True)
+    nbad = 0
+    for job, got in zip(jobs, gots):
+        ti, enc, q, locale_enc, inp, raw, want, outp = job
+        for route, data in got.items():
+            res.evaluations += 1
+            res.nontrivial.add(('cli-enc', ti, enc, q, locale_enc, route))
+            if data != want:
+                nbad += 1
+                if nbad <= 3:
+                    res.violations.append({'property': 'C13', 'impl': 'py', 'why': 'command line, %s, --encoding %s (PYTHONIOENCODING=%s): the bytes written differ from the query_table result in that encoding' % (route, enc, locale_enc),
+                                           'query': q, 'table': tables[ti], 'expected_bytes': list(want), 'observed_bytes': list(data)[:400],
+                                           'case_key': 'C13|cli-enc|%d|%s|%s|%s|%s' % (ti, enc, q, locale_enc, route)})
+    res.count('cli_encoding_runs', len(jobs) * 3)
+    res.count('cli_encoding_failures', nbad)
+
+
 def run(res, tier, seed):
     res.rule = RULE
     cli_dialect_leg(res)
+    cli_encoding_leg(res)
     res.assumptions = ['pandas itertuples / DataFrame(rows, columns) and sqlite3 cursors are faithful adapters (assumed; tied here)', 'argparse mapping is tied, not proved']
     rnd = random.Random(seed * 7001 + 13)
     cases = gen_cases(rnd, 120 if tier == 'quick' else 2500)
